@@ -378,8 +378,9 @@ func run(c Case, dir string, res *lib.Result) string {
 	if c.Kind == "fault" {
 		w.hook = func(n int, req *http.Request) *http.Response {
 			// a 404 on the referrers API is how a registry says it does not implement it (the client must then use the
-			// fallback tag): a registry that implements the API never answers so, the fault is not injected there
-			if c.FaultKind == "404" && strings.Contains(req.URL.Path, "/referrers/") {
+			// fallback tag), and a 404 on the fallback tag (<alg>-<hex>) is how it says "no referrers": the client can
+			// not tell either from the injected answer, so the fault is not injected on those two requests
+			if c.FaultKind == "404" && (strings.Contains(req.URL.Path, "/referrers/") || strings.Contains(req.URL.Path, "/manifests/sha256-")) {
 				return nil
 			}
 			if n >= c.FaultAt && faults < c.FaultN {
